@@ -36,6 +36,9 @@ pub enum BitContent {
     Groups { groups: Vec<Group>, complement: bool, lead: u16, tail: u16, seed: u64 },
     /// the count of ones crosses k * period by delta (k*period - 1, +0, +1), zeros likewise if `zeros`
     CountCross { period: usize, k: u8, delta: i8, gap_lg: u8, zeros: bool, seed: u64 },
+    /// alternating runs of ones and zeros of fixed lengths (block-structured data); `jitter` adds
+    /// 0..=jitter bits to each run
+    PeriodicRuns { one_len: u32, zero_len: u32, periods: u16, jitter: u8, seed: u64 },
     /// `before` set bits with small gaps, then `gap` clear bits, then `after` set bits; `before` sits
     /// at a multiple of a hint period +-1 (select hints recorded one occurrence early / late only
     /// show when whole blocks without a set bit follow); complemented if `zeros`
@@ -144,6 +147,21 @@ impl BitContent {
                 if *complement {
                     for b in v.iter_mut() {
                         *b = !*b;
+                    }
+                }
+                v
+            }
+            BitContent::PeriodicRuns { one_len, zero_len, periods, jitter, seed } => {
+                let mut r = Rng::new(*seed);
+                let mut v = Vec::new();
+                let mut bit = seed & 1 == 1;
+                for _ in 0..(2 * *periods as usize).max(1) {
+                    let base = if bit { *one_len } else { *zero_len } as usize;
+                    let len = base + r.below_usize(*jitter as usize + 1);
+                    v.extend(std::iter::repeat(bit).take(len));
+                    bit = !bit;
+                    if v.len() > 4_000_000 {
+                        break;
                     }
                 }
                 v
@@ -281,6 +299,13 @@ pub fn recipe_bits(lo: usize, hi: usize) -> BoxedStrategy<BitContent> {
             .prop_map(|(n, zero_lg, one_lg, seed)| BitContent::Runs { n, zero_lg, one_lg, seed }),
         2 => (n, prop_oneof![Just(64usize), Just(512), Just(4096), Just(32768)], any::<u64>())
             .prop_map(|(n, block, seed)| BitContent::Blocks { n, block, seed }),
+        2 => (prop_oneof![Just(9000u32), Just(8192), Just(8193), Just(4096), Just(512), Just(33), 1u32..20_000], prop_oneof![Just(0u32), Just(1), 1u32..20_000], 1u16..=6, prop_oneof![Just(0u8), Just(1), any::<u8>()], any::<u64>())
+            .prop_map(move |(a, d, periods, jitter, seed)| {
+                // equal run lengths (d = 0) are the interesting symmetric case
+                let (one_len, zero_len) = if d == 0 { (a, a) } else { (a, d) };
+                let periods = periods.min((hi / (one_len as usize + zero_len as usize + 2)).max(1) as u16);
+                BitContent::PeriodicRuns { one_len, zero_len, periods, jitter, seed }
+            }),
         2 => (prop_oneof![Just(1024usize), Just(8192)], 1u8..=3, -2i8..=1, prop_oneof![Just(4096u32), Just(8192), Just(12288), 512u32..40_000], 1u16..2000, any::<bool>(), any::<u64>())
             .prop_map(|(period, k, delta, gap, after, zeros, seed)| BitContent::GapAfterCount { period, k, delta, gap, after, zeros, seed }),
         3 => (prop_oneof![Just(1024usize), Just(8192)], 1u8..=12, -1i8..=1, 0u8..=6, any::<bool>(), any::<u64>())
